@@ -123,7 +123,9 @@ fn victims() -> Vec<(&'static str, Op, bool)> {
 
 fn scenario(op: &Op, fl: Fl, blob_len: usize) -> (Program, usize) {
     // key 0: multi-byte characters on every even byte offset (nothing may slice it blindly)
-    let keys = vec![format!("a{}", "é".repeat(200)), "présent".to_string(), "bystander".to_string(), "afterwards".to_string()];
+    // key 2 (a bystander): its bucket file is in the same index sub-directory as key 0's
+    let k0 = format!("a{}", "é".repeat(200));
+    let keys = vec![k0.clone(), "présent".to_string(), super::c09::bucket_dir_neighbour(&k0, "bystander"), "afterwards".to_string()];
     // (blobs 3 and 4 belong to the continuation alone: it must not re-create what the faulty call may have destroyed)
     let blobs = vec![Blob::new(blob_len, 41), Blob::new(300, 42), Blob::new(17, 43), Blob::new(23, 44), Blob::new(29, 45)];
     let steps = vec![
